@@ -33,6 +33,7 @@ type attr struct {
 	alt  string   // a well-typed alternative value
 	path string   // dump path of the attribute (to check alt / default)
 	altD string   // dump value for alt (default: alt itself)
+	str  bool     // free-form string attribute (takes any text literally)
 }
 
 type base struct {
@@ -76,6 +77,8 @@ func c15Bases() []base {
 			{k: "appender.f.type", v: "File", def: "!err"},
 			{k: "appender.f.fileDir", v: d, def: "", path: "appender.f.FileDir"},
 			{k: "appender.f.fileName", v: "c15.log", def: "!err", path: "appender.f.FileName", alt: "other.log"},
+			{k: "appender.rec2.type", v: "Rec", def: "!err"},
+			{k: "appender.rec2.extra", v: "e2", def: "dflt", path: "appender.rec2.Extra", str: true},
 			{k: "logger.root.type", v: "AsyncLogger", def: "!err"},
 			{k: "logger.root.bufferSize", v: "128", def: "10000", path: "logger.root.BufferSize", alt: "100", ill: append([]string{"99", "0", "-1"}, intIll...)},
 			{k: "logger.root.bufferFullPolicy", v: "Block", def: "1", path: "logger.root.BufferFullPolicy", alt: "DiscardOldest", altD: "2", ill: []string{"block", "nope", "0", ""}},
@@ -92,7 +95,7 @@ func c15Bases() []base {
 			{k: "appender.r.rotation", v: "30m", def: "!err", path: "appender.r.Rotation", alt: "h", altD: "1h0m0s", ill: []string{"5m", "", "H"}},
 			{k: "appender.r.maxAge", v: "72", def: "!err", path: "appender.r.MaxAge", alt: "1", ill: append([]string{"4294967297", "2147483648"}, intIll...)},
 			{k: "appender.rec.type", v: "Rec", def: "!err"},
-			{k: "appender.rec.extra", v: "xyz", def: "dflt", path: "appender.rec.Extra", alt: "abc"},
+			{k: "appender.rec.extra", v: "xyz", def: "dflt", path: "appender.rec.Extra", alt: "abc", str: true},
 			{k: "logger.root.type", v: "Logger", def: "!err"},
 			{k: "logger.root.appenderRef[0].ref", v: "r", def: ""},
 			{k: "logger.root.appenderRef[1].ref", v: "rec", def: ""},
@@ -331,6 +334,30 @@ func (b base) apply(m map[string]string, d dev) (mustFail bool, path, val string
 			v = a.alt
 		}
 		return false, a.path, v, true
+	case "special":
+		// a string attribute configured with a value the storage treats specially must still take it
+		if !a.str {
+			return false, "", "", false
+		}
+		if _, present := m[a.k]; !present {
+			return false, "", "", false
+		}
+		m[a.k] = d.Val
+		return false, a.path, d.Val, true
+	case "subkey":
+		// only a key BELOW the attribute exists: the attribute itself is absent (default or error)
+		if a.def == "" || strings.HasSuffix(a.k, ".type") || strings.HasSuffix(a.k, "]") {
+			return false, "", "", false
+		}
+		if _, present := m[a.k]; !present {
+			return false, "", "", false
+		}
+		delete(m, a.k)
+		m[a.k+".old"] = a.v
+		if a.def == "!err" {
+			return true, "", "", true
+		}
+		return false, a.path, a.def, true
 	case "inline":
 		// rewrite the whole sub-tree of this attribute's plugin (appender.X / logger.X) as X! = Type{...}
 		ps := strings.SplitN(a.k, ".", 3)
@@ -456,8 +483,13 @@ func c15Check(c c15Case) (string, []Violation, int) {
 func c15Devs(b base) []dev {
 	var out []dev
 	for i, a := range b.attrs {
-		for _, k := range []string{"respell-kebab", "respell-snake", "prop-present", "prop-absent", "remove", "alt", "inline"} {
+		for _, k := range []string{"respell-kebab", "respell-snake", "prop-present", "prop-absent", "remove", "alt", "inline", "subkey"} {
 			out = append(out, dev{Kind: k, Attr: i})
+		}
+		if a.str {
+			for _, sv := range []string{"{}", "[]", "<nil>", "a b", "a=b,c"} {
+				out = append(out, dev{Kind: "special", Attr: i, Val: sv})
+			}
 		}
 		for _, iv := range a.ill {
 			out = append(out, dev{Kind: "ill", Attr: i, Val: iv})
